@@ -59,6 +59,9 @@ def child_env(scratch):
                            "malloc_context_size=12")
     env["UBSAN_OPTIONS"] = "print_stacktrace=1:halt_on_error=1:exitcode=96"
     env["LSAN_OPTIONS"] = "exitcode=0:print_suppressions=0"
+    env["QSX_BIN_ASAN"] = os.path.join(build.BUILD, "asan", "h", "qsx")
+    env["QSX_BIN_OPT"] = os.path.join(build.BUILD, "opt", "h", "qsx")
+    env["QSX_BIN_VAL"] = os.path.join(build.BUILD, "val", "h", "qsx")
     env["QSX_ESOLVER_OPT"] = os.path.join(build.BUILD, "opt", "esolver")
     env["QSX_ESOLVER_ASAN"] = os.path.join(build.BUILD, "asan", "esolver")
     env["MALLOC_TOP_PAD_"] = "67108864"
@@ -155,8 +158,11 @@ def do_run(prop, tier, seed):
         flavours = sorted(set(r.get("flavour", "asan") for r in plan["runs"] if r.get("kind", "rc") == "rc")) or ["asan"]
         for fl in flavours:
             exes[fl] = os.path.join(binaries(fl), "qsx")
-        if plan.get("needs_esolver"):
+        if plan.get("needs_esolver") or plan.get("needs_all_flavours"):
             binaries("opt"); binaries("asan")
+        if plan.get("needs_all_flavours"):
+            binaries("val")
+            env["QSX_VALGRIND_PERMILLE"] = str(plan.get("valgrind_share", {}).get(tier, 0))
         fuzz_exe = None
         if any(r.get("kind") == "fuzz" for r in plan["runs"]):
             fuzz_exe = os.path.join(binaries("fuzz", need_fuzz=True), "qsx_fuzz")
